@@ -691,8 +691,10 @@ package sftp
 
 //@ func (*packetManager).workerChan
 //@   property C14
-//@   requires s != nil && runWorker != nil
+//@   requires s != nil && s.working != nil && runWorker != nil
 //@   ensures result != nil
+//@   callback runWorker modifies nothing
+//@   loop 1 invariant s != nil && s.working != nil
 //@   assume-frame
 //@   modifies nothing
 // (frame assumed: the runWorker callbacks passed by both servers only register with a WaitGroup and spawn a goroutine)
@@ -720,3 +722,28 @@ package sftp
 //@   requires rs != nil && rs.serverConn != nil && (rs.alloc == nil || rs.alloc.used != nil) && rs.Reader != nil && rs.pktMgr != nil && pmOK(rs.pktMgr)
 //@   loop 1 invariant rs != nil && rs.serverConn != nil && (rs.alloc == nil || rs.alloc.used != nil) && rs.Reader != nil && rs.pktMgr != nil && pmOK(rs.pktMgr)
 //@   assert before send pktChan#1: pkt != nil && (err == nil || isErr(err, errUnknownExtendedPacket))
+
+// ---------------------------------------------------------------------------
+// C14: a CLOSE is handed to the command worker only after working.Wait()
+
+//@ ghost var waited bool
+//@ ghost var registered bool
+
+//@ func (*packetManager).incomingPacket
+//@   property C14, C02
+//@   requires s != nil && s.working != nil
+
+//@ func (*packetManager).workerChan$1
+//@   property C14
+//@   requires s != nil && s.working != nil
+//@   loop 1 invariant s != nil && s.working != nil
+//@   loop 1 ghost waited, registered
+//@   update after recv pktChan#1: ghost.waited = false
+//@   update after recv pktChan#1: ghost.registered = false
+//@   update after call (*sync.WaitGroup).Wait#1: ghost.waited = true
+//@   update after call (*packetManager).incomingPacket#1: ghost.registered = true
+//@   update after call (*packetManager).incomingPacket#2: ghost.registered = true
+//@   assert before send rwChan#1: ghost.registered && (typeis(pkt.requestPacket, *sshFxpReadPacket) || typeis(pkt.requestPacket, *sshFxpWritePacket))
+//@   assert before call (*packetManager).incomingPacket#2: typeis(pkt.requestPacket, *sshFxpClosePacket) ==> ghost.waited
+//@   assert before send cmdChan#1: ghost.registered && !typeis(pkt.requestPacket, *sshFxpReadPacket) && !typeis(pkt.requestPacket, *sshFxpWritePacket)
+//@   assert before send cmdChan#1: typeis(pkt.requestPacket, *sshFxpClosePacket) ==> ghost.waited
